@@ -12,6 +12,7 @@ import AslProofs.NumValDefs
 import AslProofs.NumVal
 import AslProofs.FmtShape
 import AslProofs.FmtValue
+import Gen.XdlEncGen
 /-!
 # C05 — JSON (and XDL) encoding round-trips every Var
 
@@ -177,6 +178,58 @@ theorem fmtG_digits_rounded (P num den : ℕ) (hP : 1 ≤ P) (hn : 0 < num) (hd 
       |((AslModel.Dtoa.sigDigits P num den).1 : ℚ) * (10 : ℚ) ^ ((AslModel.Dtoa.sigDigits P num den).2 - P + 1) - (num : ℚ) / den|
         ≤ (10 : ℚ) ^ (X - P + 1) / 2 :=
   AslProofs.Fmt.sigDigits_spec P num den hP hn hd
+
+/-! ## G: the encoder's constants and escape table as the source has them now
+
+`Gen.XdlEnc` (lean/Gen/XdlEncGen.lean) is regenerated from `src/Xdl.cpp` by `tools/props/c05.py translate_enc` on every
+check: the `%.Pg` formats chosen in `XdlEncoder::encode`, the `case` lines and the default branch of `new_string`, the
+flush test, the sizes in `Xdl::read`, the `snprintf` bounds.  The theorems below say the model the driver runs
+(`precF/precD`, `escByte`, `W.flushIfBig`, the literals of `readFile`) IS what was read from the source, so every
+theorem of this file about `enc/encode/encString/writeChunks/readFile` is re-checked against the code as it is now
+(a new escape such as `\v`, `%.16g`, another flush threshold: the proofs below stop checking). -/
+
+/-- number formats: `%.9g/%.17g`, SIMPLE `%.7g/%.15g`, SHORTF `_fmtD = _fmtF` — as assigned in `XdlEncoder::encode` -/
+theorem gen_number_formats (m : Mode) :
+    precF m = Gen.XdlEnc.precF m.simple ∧ precD m = Gen.XdlEnc.precD m.simple m.shortf := by
+  cases m with | mk p s j f => cases s <;> cases f <;> exact ⟨rfl, rfl⟩
+
+/-- string escaping: for every byte the model's `escByte` is the `switch` of `new_string` as read from the source (the
+    `case` table in source order, then `< ' '` printed with `\u%04x`, then the byte itself) -/
+theorem gen_escape_table (c : UInt8) : escByte c = Gen.XdlEnc.escByte c := by
+  have h : ∀ n : Fin 256, escByte (UInt8.ofNat n.val) = Gen.XdlEnc.escByte (UInt8.ofNat n.val) := by decide +kernel
+  simpa using h ⟨c.toNat, c.toNat_lt⟩
+
+/-- so the RFC 8259 theorem for strings is a theorem about the table in the source -/
+theorem gen_string_escaping_exact (s : Bytes) (h0 : (0 : UInt8) ∉ s) :
+    SerV (.str s) (34 :: (s.flatMap Gen.XdlEnc.escByte) ++ [34]) := by
+  have h : s.flatMap Gen.XdlEnc.escByte = s.flatMap escByte := by
+    congr 1; funext c; exact (gen_escape_table c).symm
+  rw [h]; exact encString_ser s h0
+
+/-- the `\u%04x` text (6 characters) and every other escape fit `char u[8]` with the NUL: `snprintf(u, sizeof(u), …)`
+    never truncates an escape -/
+theorem gen_u_escape_fits (c : UInt8) : (Gen.XdlEnc.escByte c).length < Gen.XdlEnc.uBuf := by
+  have h : ∀ n : Fin 256, (Gen.XdlEnc.escByte (UInt8.ofNat n.val)).length < Gen.XdlEnc.uBuf := by decide +kernel
+  simpa using h ⟨c.toNat, c.toNat_lt⟩
+
+/-- the sink is flushed exactly when `_out` is longer than the threshold in the source -/
+theorem gen_flush (w : W) :
+    w.flushIfBig = if w.len > Gen.XdlEnc.flushAbove then { chunks := w.rout.reverse :: w.chunks, rout := [], len := 0 } else w := rfl
+
+/-- `Xdl::read`: the literals of `readFile` (`min content.length 100000`, `min 16382 size`) are the ones in the source -/
+theorem gen_read_sizes : Gen.XdlEnc.readClamp = 100000 ∧ Gen.XdlEnc.readChunk = 16382 := ⟨rfl, rfl⟩
+
+/-- the `snprintf(&_out[n], N, _fmtD/_fmtF, x)` bounds: in full, no number text is truncated (the longest `%.17g` text is
+    `-d.dddddddddddddddde-308`, 24 characters; `%.9g` of a double — SHORTF — `-d.dddddddde-308`, 16).  Not proved: it needs a
+    bound on the decimal exponent of `Dtoa.sigDigits`; K compares every generated number byte for byte. -/
+def number_buffer_fits_full : Prop :=
+  ∀ b : UInt64, dFinite b = true → (AslModel.Dtoa.fmtG 17 b).length < Gen.XdlEnc.dblBuf ∧ (AslModel.Dtoa.fmtG 9 b).length < Gen.XdlEnc.fltBuf
+/-- proved part: the bounds in the source leave room for those 24 / 16 characters and the NUL -/
+theorem number_buffer_fits_partial : 24 < Gen.XdlEnc.dblBuf ∧ 16 < Gen.XdlEnc.fltBuf := by decide
+
+/-- non-vacuity: 0x0b has no `case`, it is written `\u000b` by the table read from the source; `"` is written `\"` -/
+example : Gen.XdlEnc.escByte 11 = [92, 117, 48, 48, 48, 98] ∧ Gen.XdlEnc.escByte 34 = [92, 34] ∧ Gen.XdlEnc.escByte 47 = [47] := by decide
+example : Gen.XdlEnc.precD false false = 17 ∧ Gen.XdlEnc.precD true true = 7 := by decide
 
 /-! ## well-formed UTF-8 in, well-formed UTF-8 out -/
 
